@@ -175,3 +175,44 @@ Example scalar_rule_nonvacuous :
   /\ d26_clause [2; 3] [IEllipsis; IInt 1; IInt 0] = false
   /\ getitem (fun _ => 0%nat) (mkCOO [2; 3] [[1; 2]] [9] 0) [IInt 1; IInt (-1)] = Ok (GScalar 9).
 Proof. repeat split. Qed.
+
+(* ================================================================ indices with index arrays: never a scalar, on either side *)
+From Verif Require Import CooIndexArrP.
+
+Lemma build_shape_arr nix alen : n_arr nix <> 0%nat -> build_shape nix false alen <> [].
+Proof.
+  induction nix as [|e r IH]; intros H; [exfalso; apply H; reflexivity|].
+  destruct e; cbn [build_shape]; try discriminate. apply IH. exact H.
+Qed.
+
+Section ScalarRuleArr.
+  Variable V : Type.
+
+  Theorem coo_scalar_rule_arrays_proof (kf : nat -> nat) (x : coo V) (ix : index) (r : gres V) :
+    shape_okb (c_shape x) = true -> no_zero_step ix = true -> d29_clause (c_shape x) ix = true ->
+    0 < countb is_iarr ix ->
+    getitem kf x ix = Ok r -> is_gscalar r = false /\ np_scalar (c_shape x) ix = false.
+  Proof.
+    intros Hsh Hz Hd Harr Hg. set (sh := c_shape x) in *. split.
+    - destruct (normalize_link sh ix Hsh Hz Hd) as [[ex [E [Hf [Ha [Hn Hr]]]]]|[Hn Hr]].
+      2: { unfold getitem in Hg. fold sh in Hg. rewrite Hn in Hg. discriminate. }
+      set (nix := norm_all ex sh) in *.
+      assert (Hn1 : n_arr nix <> 0%nat).
+      { pose proof (n_arr_norm ex sh Hf) as H. fold nix in H. rewrite (expand_count_arr _ _ _ E) in H. lia. }
+      unfold getitem in Hg. fold sh in Hg. rewrite Hn in Hg. cbn [bind] in Hg.
+      destruct (all_full nix sh) eqn:Eaf.
+      + exfalso. apply Hn1. unfold n_arr. destruct (filter is_narr nix) as [|e t] eqn:Efl; [reflexivity|]. exfalso.
+        assert (He : In e (filter is_narr nix)) by (rewrite Efl; left; reflexivity). apply filter_In in He. destruct He as [He Hna].
+        destruct e; try discriminate. apply in_split in He. destruct He as [pre [post Es]].
+        rewrite Es, all_full_arr in Eaf. discriminate.
+      + destruct (mask_of kf (c_coords x) nix sh) as [[m adv]|e]; [|discriminate]. cbn [bind] in Hg.
+        pose proof (build_shape_arr nix (match adv with Some a => adv_len a | None => 0 end) Hn1) as Hb.
+        destruct (build_shape nix false (match adv with Some a => adv_len a | None => 0 end)); [contradiction|].
+        inversion Hg. reflexivity.
+    - unfold np_scalar. destruct (forallb is_iint ix) eqn:Ei; [|reflexivity]. exfalso.
+      rewrite forallb_forall in Ei. unfold countb in Harr.
+      destruct (filter is_iarr ix) as [|e t] eqn:Efl; [simpl in Harr; lia|].
+      assert (He : In e (filter is_iarr ix)) by (rewrite Efl; left; reflexivity). apply filter_In in He. destruct He as [He Ha].
+      specialize (Ei e He). destruct e; discriminate.
+  Qed.
+End ScalarRuleArr.
